@@ -379,10 +379,114 @@ fn cert(args: &[&str]) -> String {
     out.join(" ")
 }
 
+// ------------------------------------------------------------------ the real listener (server.rs `listen`)
+/// certlisten <check_expiry> <nblobs> <hex|class>{nblobs} <op>...
+///   Wc:<i> Wk:<i> Dc Dk as in `cert`;  N = CertReloader::new + `Server::new_with_reloadable_tls(..,
+///   reloader.get_acceptor_ref(), ..)` listening on a loopback port (real sockets, real time);
+///   R = reload();  C = a real TCP + TLS client connection to the listener, prints the leaf it was served.
+/// The runtime is single-threaded and only runs inside the driver's block_on calls, so between two
+/// operations the listener task is parked exactly where it awaits `listener.accept()`.
+fn certlisten(args: &[&str]) -> String {
+    if args.len() < 2 {
+        return "BADCASE".into();
+    }
+    let check_expiry = args[0] == "1";
+    let nblobs: usize = args[1].parse().unwrap();
+    let blobs: Vec<Vec<u8>> = args[2..2 + nblobs].iter().map(|t| unhex(t.split('|').next().unwrap())).collect();
+    let ops = &args[2 + nblobs..];
+    let dir = tempfile::tempdir().expect("tempdir");
+    let disk = Disk { cert: dir.path().join("cert.pem"), key: dir.path().join("key.pem"), dir, blobs };
+    let rt = tokio::runtime::Builder::new_current_thread().enable_all().build().unwrap();
+    let cfg = CertReloaderConfig {
+        cert_path: disk.cert.clone(),
+        key_path: disk.key.clone(),
+        watch_enabled: false,
+        debounce_ms: 500,
+        check_expiry,
+        expiry_warning_days: 30,
+    };
+    let mut rel: Option<CertReloader> = None;
+    let mut addr: Option<String> = None;
+    let mut out: Vec<String> = Vec::new();
+    for op in ops.iter() {
+        let parts: Vec<&str> = op.split(':').collect();
+        match parts[0] {
+            "Wc" => disk.put(&disk.cert, parts[1]),
+            "Wk" => disk.put(&disk.key, parts[1]),
+            "Dc" => disk.put(&disk.cert, "-"),
+            "Dk" => disk.put(&disk.key, "-"),
+            "N" => {
+                if rel.is_some() {
+                    out.push("BADOP".into());
+                    continue;
+                }
+                match CertReloader::new(cfg.clone()) {
+                    Err(e) => out.push(format!("new=err:{}", err_class(&e))),
+                    Ok(r) => {
+                        let port = {
+                            let l = std::net::TcpListener::bind("127.0.0.1:0").unwrap();
+                            l.local_addr().unwrap().port()
+                        };
+                        let a = format!("127.0.0.1:{}", port);
+                        let server = Arc::new(anytls_rs::server::Server::new_with_reloadable_tls(
+                            "pw",
+                            r.get_acceptor_ref(),
+                            anytls_rs::padding::PaddingFactory::default(),
+                            None,
+                        ));
+                        let a2 = a.clone();
+                        rt.spawn(async move {
+                            let _ = server.listen(&a2).await;
+                        });
+                        // wait until the port accepts (the probe connection is closed at once)
+                        let up = rt.block_on(async {
+                            for _ in 0..400 {
+                                if tokio::net::TcpStream::connect(&a).await.is_ok() {
+                                    tokio::time::sleep(Duration::from_millis(20)).await;
+                                    return true;
+                                }
+                                tokio::time::sleep(Duration::from_millis(5)).await;
+                            }
+                            false
+                        });
+                        out.push(if up { "new=ok".into() } else { "new=nolisten".to_string() });
+                        rel = Some(r);
+                        addr = Some(a);
+                    }
+                }
+            }
+            "R" => match &rel {
+                None => out.push("r=noreloader".into()),
+                Some(r) => out.push(match r.reload() {
+                    Ok(()) => "r=ok".to_string(),
+                    Err(e) => format!("r=err:{}", err_class(&e)),
+                }),
+            },
+            "C" => match &addr {
+                None => out.push("c=noserver".into()),
+                Some(a) => {
+                    let leaf = rt.block_on(async {
+                        let tcp = tokio::time::timeout(Duration::from_secs(3), tokio::net::TcpStream::connect(a)).await.ok()?.ok()?;
+                        let conn = TlsConnector::from(client_config());
+                        let name = rustls::pki_types::ServerName::try_from("localhost").unwrap();
+                        let tls = tokio::time::timeout(Duration::from_secs(3), conn.connect(name, tcp)).await.ok()?.ok()?;
+                        let leaf = tls.get_ref().1.peer_certificates()?.first()?.clone();
+                        Some(fp(leaf.as_ref()))
+                    });
+                    out.push(format!("c={}", leaf.unwrap_or_else(|| "fail".into())));
+                }
+            },
+            _ => out.push("BADOP".into()),
+        }
+    }
+    out.join(" ")
+}
+
 pub fn dispatch(drv: &str, args: &[&str]) -> Option<String> {
     match drv {
         "certgen" => Some(certgen(args)),
         "cert" => Some(cert(args)),
+        "certlisten" => Some(certlisten(args)),
         _ => None,
     }
 }
